@@ -18,6 +18,8 @@ import (
 func (f *FnEnc) mapHeapSort(key string) string {
 	parts := strings.Split(key, ":")
 	switch parts[1] {
+	case "ghost": // map:ghost:<name>  -- a ghost integer attached to every object (by reference)
+		return "(Array Int (_ BitVec 64))"
 	case "has":
 		return fmt.Sprintf("(Array Int (Array %s Bool))", unsortKey(parts[2]))
 	case "val":
@@ -48,7 +50,11 @@ func (f *FnEnc) lazyHeap(st *State, key string) string {
 	if h, ok := st.heaps[key]; ok {
 		return h
 	}
-	name := fmt.Sprintf("%s@%d", sanitize(key), st.epoch)
+	ep := st.epoch
+	if strings.HasPrefix(key, "map:ghost:") {
+		ep = st.gepoch
+	}
+	name := fmt.Sprintf("%s@%d", sanitize(key), ep)
 	if !f.c.ufs[name] {
 		f.c.ufs[name] = true
 		f.c.raw(fmt.Sprintf("(declare-const %s %s)", name, f.heapSortOf(key)))
@@ -73,6 +79,7 @@ func (f *FnEnc) mapValKey(mt *types.Map, p int, s string) string {
 }
 
 func (f *FnEnc) mapInit(st *State, t types.Type, ref string) {
+	f.noteWrite(writeRec{Kind: "map", Ref: ref})
 	mt := t.Underlying().(*types.Map)
 	ks := f.mapKeySort(mt)
 	hk := f.mapHasKey(mt)
@@ -134,6 +141,7 @@ func (f *FnEnc) mapUpdate(fr *Frame, st *State, R string, in *ssa.MapUpdate) {
 }
 
 func (f *FnEnc) mapStore(st *State, mt *types.Map, ref, k string, v Val) {
+	f.noteWrite(writeRec{Kind: "map", Ref: ref})
 	hk := f.mapHasKey(mt)
 	hh := f.lazyHeap(st, hk)
 	had := sel(sel(hh, ref), k)
@@ -149,6 +157,7 @@ func (f *FnEnc) mapStore(st *State, mt *types.Map, ref, k string, v Val) {
 }
 
 func (f *FnEnc) mapDelete(st *State, mt *types.Map, ref, k string) {
+	f.noteWrite(writeRec{Kind: "map", Ref: ref})
 	hk := f.mapHasKey(mt)
 	hh := f.lazyHeap(st, hk)
 	had := and(not(eq(ref, "0")), sel(sel(hh, ref), k))
@@ -281,6 +290,7 @@ func (f *FnEnc) builtin(fr *Frame, st *State, R string, in ssa.Value, b *ssa.Bui
 	case "clear":
 		switch u := args[0].T.Underlying().(type) {
 		case *types.Map:
+			f.noteWrite(writeRec{Kind: "map", Ref: args[0].L[0]})
 			hk := f.mapHasKey(u)
 			hh := f.lazyHeap(st, hk)
 			setHeap(st, hk, f.c.define("Mhas", f.heapSortOf(hk), sto(hh, args[0].L[0], fmt.Sprintf("((as const (Array %s Bool)) false)", f.mapKeySort(u)))))
@@ -395,7 +405,7 @@ func (f *FnEnc) appendOp(st *State, R string, s, t Val, rt types.Type) Val {
 			tmid := f.c.define("tmid", midSort(so), sel(h, t.L[0]))
 			off := "(bvsub k!l " + ridx + ")"
 			tAt := "(select " + tmid + " (bvadd (bvsub " + off + " " + s.L[3] + ") " + t.L[1] + "))"
-			zinner := fmt.Sprintf("((as const %s) %s)", innerSort(so), zeroOf(so))
+			zinner := f.zeroInner(so)
 			oldAt := ite(fits, "(select "+smid+" k!l)", ite("(bvult "+off+" "+s.L[3]+")", "(select "+smid+" (bvadd "+s.L[1]+" "+off+"))", zinner))
 			nmid := f.c.lambda(innerSort(so), "(ite (and (bvule "+s.L[3]+" "+off+") (bvult "+off+" "+newLen+")) "+tAt+" "+oldAt+")")
 			setHeap(st, so, f.c.define("H"+className(so), heapSort(so), sto(h, ref, nmid)))
